@@ -47,9 +47,9 @@ class _Scheduler(object):
         """Returns the state of the scheduler as a :class:`dict`.
 
         It contains an entry for every variable in self.__dict__ which
-        is not the optimizer.
+        is not the optimizer or the ``continual`` wrapper bound to this scheduler.
         """
-        return {key: value for key, value in self.__dict__.items() if key != 'optimizer'}
+        return {key: value for key, value in self.__dict__.items() if key not in ('optimizer', 'continual')}
 
     def load_state_dict(self, state_dict):
         """Loads the schedulers state.
